@@ -10,6 +10,11 @@ from . import facts, mir
 VERIF = facts.VERIF
 
 
+CENSUS_RULES = ("A4.", "R16.1.read_route_marks", "R6.7.route", "R6.8.atomic_forward", "R4.3.who_may_touch", "R5.2.derivation",
+                "R5.4.raw_handle", "R5.1.", "R16.3.", "R17.", "R12.5.signature", "R13.5.", "R3.5.", "R8.4.owner", "R11.6.", "R15.3.",
+                "R18.1.", "R4.2.capped_count", "R9.1.guard", "R20.3.derive", "R19.2.derived", "R1.6.")
+
+
 class Ctx:
     def __init__(self, pid, tier, seed=0):
         self.pid = pid
@@ -86,6 +91,25 @@ class Ctx:
         for f in os.listdir(os.path.join(OUT, "violations")):
             if f.startswith(self.pid + "-"):
                 os.remove(os.path.join(OUT, "violations", f))
+        # per-rule instance floors (rules/tables/rule_floors.json: counts confirmed on the reviewed tree; never written at run time)
+        fpath = os.path.join(VERIF, "rules", "tables", "rule_floors.json")
+        if os.path.exists(fpath) and not os.environ.get("VERIF_NO_FLOORS"):
+            floors = json.load(open(fpath)).get(self.pid, {})
+            have = {}
+            for o in self.obligations:
+                have[(o["config"], o["rule"])] = have.get((o["config"], o["rule"]), 0) + 1
+            for cfg in self.configs + ["witness", "fixture"]:
+                for rule, n in floors.get(cfg, {}).items():
+                    if rule.startswith(CENSUS_RULES):
+                        n = 1    # "every X in the crate" rules: fewer X is not a lost anchor; they keep their own hand floors
+                    got = have.get((cfg, rule), 0)
+                    if got < n:
+                        self.config = cfg
+                        self.violation(rule + ".instances", f"{rule}<{n}@{cfg}", "",
+                                       f"rule {rule} produced {got} obligation(s) in {cfg}, {n} on the reviewed tree: an anchor disappeared or is no longer recognised (fail closed)")
+        if os.environ.get("VERIF_DUMP_OBLIGATIONS"):
+            with open(os.environ["VERIF_DUMP_OBLIGATIONS"], "w") as fh:
+                json.dump([{k: o[k] for k in ("rule", "config", "ok")} for o in self.obligations], fh)
         n_ob = len(self.obligations)
         n_ok = sum(1 for o in self.obligations if o["ok"])
         samples = []
